@@ -18,8 +18,8 @@ func init() {
 		Run: runC15,
 		Explanation: "Decides ONE structural clause of 'encoding with any accepted decode parameters, then decoding, returns the original bytes': for every filter type of pkg/filter that has both an Encode and a DecodeLength method, the set of decode-parameter keys (constant indices into the filter's parms map) read in code reachable from DecodeLength inside pkg/filter is contained in the set read in code reachable from Encode. A parameter that only the decoder interprets (Predictor, Colors, BitsPerComponent, Columns, EarlyChange) transforms the data on one side only, so Decode(Encode(x)) cannot be x for the parameter sets in which it matters. One table entry: LZWDecode reads Predictor only to reject values > 1 (such parameter sets are not accepted). " +
 			"The pinned tree violated this for FlateDecode — Encode ignored the predictor parameters, a TODO said so — repaired in /repo (2218e670). " +
-			"(R2) in StreamDict.Encode and decodeLength the parameter map handed to filter.NewFilter for a pipeline stage is made in that iteration (no value carried round the loop). (R3) both sides of the TIFF predictor address the neighbouring sample through the Colors value (index dependence on SSA), so the distance is the same function of the parameters on both sides; (R4) every loop of the run-length encoder that advances the scan position over the source goes on only under a linear bound position - start <= k with k+1 <= 128, the largest run a length byte can express (129 would be written as 128 = end of data). NOT decided: that the encoder applies the inverse transformation correctly (value-level), the codecs themselves, StreamDict pipelines.",
-		Rules:       []string{"C15.R1 siblings: decode parameters read by a filter's decoder are read by its encoder", "C15.R2 flow: every pipeline stage is built with parameters made from its own /DecodeParms in the same iteration", "C15.R3 dependence: the sample the TIFF differencing subtracts (encoder) or adds (decoder) is addressed through Colors", "C15.R4 range: a run-length run is cut at 128 bytes before its length byte is computed"},
+			"(R2) in StreamDict.Encode and decodeLength the parameter map handed to filter.NewFilter for a pipeline stage is made in that iteration (no value carried round the loop). (R3) both sides of the TIFF predictor address the neighbouring sample through the Colors value (index dependence on SSA), so the distance is the same function of the parameters on both sides; (R4) every loop of the run-length encoder that advances the scan position over the source goes on only under a linear bound position - start <= k with k+1 <= 128, the largest run a length byte can express (129 would be written as 128 = end of data). (R5) internal/filter/lzw: (largest unflushed d.o) + len(decoder.suffix) <= len(decoder.output), read from the struct type and the flush comparison; (R6) StreamDict.Encode: every successful return is after a store into Raw or behind the nil test of Content. NOT decided: that the encoder applies the inverse transformation correctly (value-level), the codecs themselves, StreamDict pipelines.",
+		Rules:       []string{"C15.R1 siblings: decode parameters read by a filter's decoder are read by its encoder", "C15.R2 flow: every pipeline stage is built with parameters made from its own /DecodeParms in the same iteration", "C15.R3 dependence: the sample the TIFF differencing subtracts (encoder) or adds (decoder) is addressed through Colors", "C15.R4 range: a run-length run is cut at 128 bytes before its length byte is computed", "C15.R5 constants relation: LZW decoder pending output + longest phrase fit the output array", "C15.R6 MPT: StreamDict.Encode succeeds without storing Raw only behind Content == nil"},
 		Assumptions: []string{"decode parameters are read through constant keys of the parms map"},
 		Level:       "other",
 		Technique:   "sibling cross-check of Encode / DecodeLength over the call graph restricted to pkg/filter",
@@ -79,6 +79,10 @@ func runC15(c *Ctx) {
 	checkTIFFDistance(c)
 	r.MinInst["C15.R4"] = 2
 	checkRunLengthRunBound(c)
+	r.MinInst["C15.R5"] = 1
+	checkLZWBufferRelation(c)
+	r.MinInst["C15.R6"] = 2
+	checkEncodeSkipsOnlyUndecoded(c)
 	cg := c.CG()
 	enc := map[string]*ssa.Function{}
 	dec := map[string]*ssa.Function{}
